@@ -39,6 +39,7 @@ TEXT={
  "C32":("model-based: live ids per session tracked by a reference model; every id handed out must differ from all live ones; operations on foreign or unknown ids must be refused and leave the server's tables unchanged (inspected directly)","6 C32"),
  "C33":("every Browse result is compared with an independent filter (direction, reference type with own subtype closure, class mask) over the node's raw reference list exported from the server","6 C33"),
  "C35":("requests of every session service are sent over a bare secure channel with null/random/not-activated/closed tokens; the service result must be Bad and the server's tables unchanged; the same requests through an activated session must succeed","6 C35"),
+ "C36":("the Go race detector over free-running executions of the concurrent scenarios; a report whose access stacks contain gopcua frames is the violation","6 C36"),
  "C37":("complete enumeration of the supported configuration set; every configuration must complete discovery, connect, read, write and read-back","6 C37"),
  "C34":("several real clients against one real server under seeded latency and scheduling; invoke/return stamped with the simulator's event sequence; porcupine register model per node","6 C34"),
 }
